@@ -38,7 +38,10 @@ func c14Gen(r *verifh.Rng) []verifh.Section {
 	for _, api := range []string{"plain", "ctx"} {
 		secs = append(secs, verifh.Section{Cfg: "via=cached accept=none", Ops: verifc14.Exhaustive(api, verifh.Scale(3, 5))})
 	}
-	classes := []string{"plain", "norows", "txdone", "canceled", "userok"}
+	classes := []string{"plain", "norows", "txdone", "canceled", "userok", "userok2"}
+	for _, c := range []struct{ api, acc string }{{"plain", "none"}, {"ctx", "both"}, {"plain", "user2"}} {
+		secs = append(secs, verifh.Section{Cfg: "via=cached accept=" + c.acc, Ops: verifc14.ExhaustiveAcc(c.api, classes, verifh.Scale(2, 3), 0)})
+	}
 	nsec := verifh.Scale(30, 600)
 	for i := 0; i < nsec; i++ {
 		var ops []string
@@ -46,7 +49,7 @@ func c14Gen(r *verifh.Rng) []verifh.Section {
 		for j := 0; j < n; j++ {
 			ops = append(ops, verifc14.GenOp(r, []string{"plain", "ctx", "ctx", "ctx", "ctxdone", "ctxdead"}, classes, verifh.Scale(6, 12), false))
 		}
-		secs = append(secs, verifh.Section{Cfg: "via=cached accept=" + r.PickS("none", "user"), Ops: ops})
+		secs = append(secs, verifh.Section{Cfg: "via=cached accept=" + r.PickS("none", "user", "user2", "both"), Ops: ops})
 	}
 	return secs
 }
@@ -56,12 +59,19 @@ func TestVerifC14Cached(t *testing.T) {
 	secs := verifh.Sections(c14Gen)
 	verifh.Run(t, secs, func(cfg verifh.Cfg) (func(op []string) string, func()) {
 		var opts []sqlx.SqlOption
-		if cfg.Str("accept", "none") == "user" {
-			opts = append(opts, sqlx.WithAcceptable(func(err error) bool { return errors.Is(err, verifc14.ErrUserOk) }))
+		f1 := sqlx.WithAcceptable(func(err error) bool { return errors.Is(err, verifc14.ErrUserOk) })
+		f2 := sqlx.WithAcceptable(func(err error) bool { return errors.Is(err, verifc14.ErrUserOk2) })
+		switch cfg.Str("accept", "none") {
+		case "user":
+			opts = append(opts, f1)
+		case "user2":
+			opts = append(opts, f2)
+		case "both":
+			opts = append(opts, f1, f2)
 		}
 		drv := verifc14.NewDrv()
 		db := sql.OpenDB(drv)
-		call := func(api, kind string, _ bool, body func(verifc14.Sess) error, mark *string) error {
+		call := func(api, kind string, _ bool, _ int, body func(verifc14.Sess) error, mark *string, _ *verifc14.Core) error {
 			*mark = "?"
 			// a fresh SqlConn (fresh breaker) per operation: the breaker never has a history to trip on
 			cc := NewConnWithCache(sqlx.NewSqlConnFromDB(db, opts...), nil)
@@ -91,7 +101,7 @@ func TestVerifC14Cached(t *testing.T) {
 			}
 			nested := func(err error, ran bool) error {
 				if ran {
-					return errors.New("c14: nested body ran")
+					return verifc14.NewSrcErr("nestran", nil) // the nested Transact ran its body instead of refusing
 				}
 				return err
 			}
@@ -133,6 +143,19 @@ func TestVerifC14Cached(t *testing.T) {
 						}
 						if err == nil && (len(out) != 1 || out[0] != "c14") {
 							return fmt.Errorf("c14: unexpected rows %v", out)
+						}
+						return err
+					},
+					QueryRow: func(q string) error {
+						var out string
+						var err error
+						if c != nil {
+							err = cc.WithSession(s).QueryRowNoCacheCtx(c, &out, q)
+						} else {
+							err = cc.WithSession(s).QueryRowNoCache(&out, q)
+						}
+						if err == nil && out != "c14" {
+							return fmt.Errorf("c14: unexpected row %v", out)
 						}
 						return err
 					},
